@@ -295,8 +295,8 @@ BOUNDED = [
      'assumed contracts of PrimeFactors::has_factors_leq / has_factors_gt / product_above (iterator one-liners) and the pinned primitives inside the verified partition_factors (iter().all, derived clone, first_mut); cross-check of partition_factors itself; bound: all n below the limit plus structured prime-power products below 2^40'),
     ('plan_scalar', ['C04', 'C05', 'C10', 'C13', 'C14'], 'plan_scalar:1024', 'plan_scalar:12288',
      'assumed constructor contracts of the 20 butterflies and pinned iterator one-liners of the planner, end to end through FftPlannerScalar<f64>::plan_fft (both directions, fresh planner): no panic, len, direction, scratch <= 12n+64; bound: all n below the limit plus structured lengths below 2^18'),
-    ('opcount', ['C05'], 'opcount:600,0,0', 'opcount:3000,524288,10',
-     'operation-count clause of C05 (not decided by any contract): an instrumented element type counts every +, -, * of one chunk of the real FftPlannerScalar transform (in-place and immutable-input entry points) against 64 n log2 n: every n below the first limit; thorough: additionally the 10 lengths below 2^19 whose REAL recipe (read through the verif_design hook, no twiddles built) has the highest estimated cost ratio - the verdict is always the measured count'),
+    ('opcount', ['C05'], 'opcount:600,262144,6', 'opcount:3000,1048576,12',
+     'operation-count clause of C05 (not decided by any contract): an instrumented element type counts every +, -, * of one chunk of the real FftPlannerScalar transform (in-place and immutable-input entry points) against 64 n log2 n: every n below the first limit; additionally the 6 (thorough: 12) lengths below 2^18 (thorough: 2^20) whose REAL recipe (read through the verif_design hook, no twiddles built) has the highest estimated cost ratio - the verdict is always the measured count'),
     ('plan_history', ['C06', 'C10'], 'plan_history:quick', 'plan_history:thorough',
      'history quantifier of C10/C06 on FftPlannerScalar<f64>: every request sequence of length <= 2 over 14 related lengths x 2 directions and of length 3 over 6 lengths x 2 directions (thorough: 20 / 11 lengths): no panic, right length and direction, output bit-identical to a fresh planner'),
     ('shapes', ['C03', 'C09', 'C15'], 'shapes:96', 'shapes:700',
@@ -309,8 +309,8 @@ BOUNDED = [
      'SIMD kernels are outside both verifiers: FftPlannerSse<f32|f64> on this CPU, every length below the limit: plans without panic, len/direction/scratch<=12n+64; through the three explicit-scratch entry points with canary-guarded buffers: 1..5 chunks and ill-shaped variants, canaries and immutable input intact, ill-shaped panics, every chunk equals the portable (scalar planner) transform of that chunk up to rounding (2e-4 f32 / 1e-11 f64 relative L2)', 'avx,sse'),
     ('simd_avx', ['C01', 'C03', 'C04', 'C07', 'C09', 'C13', 'C15'], 'simd_avx:336', 'simd_avx:1100',
      'same for FftPlannerAvx<f32|f64> (this CPU: avx2+fma)', 'avx,sse'),
-    ('simd_pairs', ['C04', 'C06', 'C10', 'C12'], 'simd_pairs:160:10000', 'simd_pairs:400:40000',
-     'history quantifier of C10 on the SIMD planners at shape level (stand-in wherever a planner proof is lost to an unsupported rewrite): every ordered pair of requests below the first limit (AVX and SSE planners, f32 and f64, same and opposite direction) and, for the AVX planner, every pair a | b of 11-smooth lengths below the second limit: no panic, second answer has the requested length and direction', 'avx,sse'),
+    ('simd_pairs', ['C04', 'C05', 'C06', 'C10', 'C12'], 'simd_pairs:160:10000:1200', 'simd_pairs:400:40000:2400',
+     'history quantifier of C10 on the SIMD planners at shape level (stand-in wherever a planner proof is lost to an unsupported rewrite): every ordered pair of requests below the first limit (AVX and SSE planners, f32 and f64, same and opposite direction) and, for the AVX planner, every pair a | b of 11-smooth lengths below the second limit: no panic, second answer has the requested length and direction and advertises at most 12 n + 64 scratch; for the workspace clause of C05 under history additionally every prime b below the third limit requested after each a = 2^i 3^j in [2b-1, 12b] (the lengths a Bluestein search can consider)', 'avx,sse'),
     ('scalar_pairs', ['C04', 'C06', 'C10', 'C12'], 'scalar_pairs:450', 'scalar_pairs:1500',
      'same for FftPlannerScalar<f64>: every ordered pair of requests below the limit, same and opposite direction'),
     ('simd_history', ['C04', 'C06', 'C10'], 'simd_history:1', 'simd_history:1000',
